@@ -1268,11 +1268,12 @@ impl SourceBuf {
             return Ok(false);
         }
 
-        let (sym, sym_end) =
-            match Symbol::from_slice_index(&self.buf, sym_end) {
-                Ok(Some(some)) => some,
-                _ => return Ok(false),
-            };
+        // Only peek at the symbol behind the marker: if it is a delimiter,
+        // it still has to be interpreted by `next_item`.
+        let (sym, _) = match Symbol::from_slice_index(&self.buf, sym_end) {
+            Ok(Some(some)) => some,
+            _ => return Ok(false),
+        };
         if sym.is_word_char() {
             return Ok(false);
         }
